@@ -482,13 +482,16 @@ class Anticipated(Family):
         return Result('kept:' + type(e).__name__, True)
 
 
-NONTEXT = [None, 5, 1.5, b'x', ('a',), {'a': 1}, [], [None], ['a', 5], [['a']], ['a', ['b']], True, object]
+NONTEXT = [None, 5, 1.5, b'x', ('a',), {'a': 1}, [], [None], ['a', 5], [['a']], ['a', ['b']], True, object,
+           # lists of the right length (2, 3, 4 boxes) with one entry, or all entries, that is not text
+           ['a', None], [None, 'b'], [None, None], ['a', None, 'c'], [None, 'b', 'c'], ['a', 'b', 1.5], ['1', '3', 'n', None],
+           [None, '3', 'n', 'n'], ['1', '3', b'n', 'n'], ['a', 'b', 'c', True], ['a', ('b',)], [5]]
 
 
 class NonText(Family):
     name = 'non_text_objects'
     rule = ('every grader class x non-text objects %r, plus a string where a list of boxes is required and a list where a single text is '
-            'required: must be refused with ConfigError, never graded' % (['None', 5, 1.5, "b'x'", "('a',)", "{'a': 1}", [], [None], ['a', 5], [['a']], ['a', ['b']], True, 'object'],))
+            'required: must be refused with ConfigError, never graded' % ([repr(x) for x in NONTEXT],))
 
     def setup(self, tier):
         self.gn = {}
